@@ -7,6 +7,9 @@ CONSTANTS
   Shapes = {"longTail"}
   MaxShape = 0
   ShapeWithCorr = FALSE
+  MaxOps = 0
+  OpKinds = {}
+  Origins = {"loaded"}
   TweakChoice = {"plain", "tweaked"}
 INVARIANT Agree
 INVARIANT AgreeJudge
